@@ -138,6 +138,10 @@ class FitResult(HoloPyObject):
             new_coords = {'point': np.arange(len(dataset.point))}
             dataset = dataset.assign_coords(new_coords)
         dataset.data.attrs = pack_attrs(dataset.data)
+        # (the variable is called 'data' in the file; the image keeps its name)
+        dataset.data.attrs['name'] = self.data.name
+        if self.data.name is None:
+            del dataset.data.attrs['name']
         attrs = ['model', 'strategy', 'time', '_source_class']
 
         def make_yaml(key):
@@ -173,6 +177,7 @@ class FitResult(HoloPyObject):
     @classmethod
     def _unserialize(cls, dataset):
         data = dataset.data
+        data.name = data.attrs.get('name')
         data.attrs = unpack_attrs(data.attrs)
         if '_flat' in data.attrs.keys():
             flats = np.array(data.attrs['_flat']).T
@@ -185,7 +190,8 @@ class FitResult(HoloPyObject):
             coords = {coord: data[coord] for coord in coordnames}
             coords['flat'] = flat_index
             data = xr.DataArray(data.values, dims=coordnames + ['flat'],
-                                coords=coords, attrs=data.attrs)
+                                coords=coords, attrs=data.attrs,
+                                name=data.name)
         model = yaml.load(dataset.attrs['model'], Loader=FullLoader)
         strategy = yaml.load(dataset.attrs['strategy'], Loader=FullLoader)
         outlist = [data, model, strategy]
